@@ -3,9 +3,13 @@
    Rule sets are universally quantified through the functions tag_kind / entity_ok / bool_ok / val_ok
    (rules::valid_tag, valid_entity, valid_boolean_property, valid_property) and the three flags;
    the encoding validators enc_valid / enc_vof (cppcms::encoding::valid / validate_or_filter) are
-   universally quantified functions constrained only by the stated premises. *)
-From CppcmsV Require Import Base.Tac Base.Sweep C04.Defs C04.DefsX C04.DefsU C04.ProofsX C04.ProofsU C04.ProofsU2 C04.ProofsU3 C04.ProofsI C04.Proofs1 C04.Proofs2 C04.Proofs3 C04.Proofs4 C04.Proofs5 C04.Proofs6 C04.Proofs7 C04.Proofs8 C04.Proofs9 C04.Proofs10 C04.Proofs11 C04.Proofs12 C04.Link Base.CSem gen.Gen_xss gen.Gen_xss2 gen.Gen_uri gen.Gen_cstr.
+   universally quantified functions constrained only by the stated premises in sections 1-8; section 9
+   instantiates them with the concrete validators selected by the encoding name (DefsE.v) and has no such premise. *)
+From CppcmsV Require Import Base.Tac Base.Sweep C04.Defs C04.DefsX C04.DefsU C04.ProofsX C04.ProofsU C04.ProofsU2 C04.ProofsU3 C04.ProofsI C04.Proofs1 C04.Proofs2 C04.Proofs3 C04.Proofs4 C04.Proofs5 C04.Proofs6 C04.Proofs7 C04.Proofs8 C04.Proofs9 C04.Proofs10 C04.Proofs11 C04.Proofs12 C04.Link C04.DefsE C04.ProofsE C04.ProofsE2 C04.LinkE C04.LinkN C04.LinkS C04.LinkC Base.CSem gen.Gen_xss gen.Gen_xss2 gen.Gen_uri gen.Gen_cstr gen.Gen_C04utf gen.Gen_C04next gen.Gen_C04enc gen.Gen_C04ctl.
+From CppcmsV Require C14.Defs C14.Spec C14.Proofs3.
 Local Open Scope N_scope.
+Module D := C14.Defs. Module S := C14.Spec. Module P3 := C14.Proofs3.
+
 
 (* ---- 1. verdicts: both entry points agree, valid input is returned unchanged, validation implies
         well-formedness in the declared encoding ---- *)
@@ -598,3 +602,266 @@ Example registration_nonvacuous :
   let r := mkR true false false [] [ ([97], TPair, [([104;114;101;102], VFun 0)]); ([97], TAny, [([104;114;101;102], VFun 1)]) ] in
   c_tag_kind r [97] = TAny /\ find_prop r [97] [104;114;101;102] = Some (VFun 1).
 Proof. vm_compute. split; reflexivity. Qed.
+
+(* ---- 9. the encoding layer made concrete (DefsE.v): the validators are no longer parameters.  name = rules::encoding();
+        D.lookup name = what cppcms::encoding::validators_set answers for it (D = coq/C14/Defs.v, the model of utf8::next /
+        validate and of the single byte validators; S = coq/C14/Spec.v, the RFC 3629 section 4 ABNF as the inductive predicates
+        Seq / WF with the scalar values, and html_safe = no C0 control other than tab LF CR, not DEL, no C1 control).
+        No premise about the encoding validators is left; the conversions tus / tusk / fus (iconv) are asked only for
+        names without a built-in validator. ---- *)
+
+(* THE CLAUSE "validation never accepts text that is not well-formed in the declared character encoding", UTF-8:
+   whatever validate accepts under a rule set whose encoding name selects the UTF-8 validator is a sequence of RFC 3629
+   UTF8-char (ABNF), i.e. the concatenated shortest-form encodings of Unicode scalar values (<= U+10FFFF, no surrogate),
+   none of which is a forbidden control character - unconditionally *)
+Theorem validate_implies_wellformed_utf8 :
+  forall xhtml comments numeric tag_kind entity_ok bool_ok val_ok name tus x,
+  D.lookup name = Some D.V_utf8 ->
+  validate_e xhtml comments numeric tag_kind entity_ok bool_ok val_ok name tus x = true ->
+  (exists cps, S.WF x cps /\ Forall S.html_safe cps) /\
+  (exists cps, Forall S.scalar cps /\ Forall S.html_safe cps /\ x = flat_map S.rfc_encode cps).
+Proof. exact validate_implies_wellformed_utf8_l. Qed.
+Print Assumptions validate_implies_wellformed_utf8.
+
+(* every spelling the comparator of src/encoding.cpp identifies with utf8 selects that validator (UTF-8, utf8, Utf_8, ...) *)
+Theorem utf8_names : forall name, D.norm_name name = D.utf8_name -> D.lookup name = Some D.V_utf8.
+Proof. exact utf8_spellings. Qed.
+Print Assumptions utf8_names.
+
+(* ... and every text filter() returns under such a rule set is well-formed in the same sense (replacement character none or
+   HTML-safe ASCII; rule set: the two side conditions that every API-built rule set satisfies) *)
+Theorem filter_output_wellformed_utf8 :
+  forall xhtml comments numeric tag_kind entity_ok bool_ok val_ok name repl tus tusk fus m x,
+  kind_compat xhtml tag_kind -> (m = EscapeInvalid -> esc_entities_ok entity_ok) ->
+  D.lookup name = Some D.V_utf8 -> P3.repl_ok repl ->
+  let out := filter_e xhtml comments numeric tag_kind entity_ok bool_ok val_ok name repl tus tusk fus m x in
+  validate_e xhtml comments numeric tag_kind entity_ok bool_ok val_ok name tus out = true /\
+  exists cps, Forall S.scalar cps /\ Forall S.html_safe cps /\ out = flat_map S.rfc_encode cps.
+Proof. exact filter_output_wellformed_utf8_l. Qed.
+Print Assumptions filter_output_wellformed_utf8.
+
+(* verdicts with UTF-8, no premise left *)
+Theorem utf8_validate_iff_flag_and_unchanged :
+  forall xhtml comments numeric tag_kind entity_ok bool_ok val_ok name repl tus tusk fus m x,
+  D.lookup name = Some D.V_utf8 ->
+  fst (validate_and_filter_e xhtml comments numeric tag_kind entity_ok bool_ok val_ok name repl tus tusk fus m x)
+    = validate_e xhtml comments numeric tag_kind entity_ok bool_ok val_ok name tus x /\
+  (validate_e xhtml comments numeric tag_kind entity_ok bool_ok val_ok name tus x = true ->
+   filter_e xhtml comments numeric tag_kind entity_ok bool_ok val_ok name repl tus tusk fus m x = x).
+Proof. exact utf8_validate_iff_flag_and_unchanged_l. Qed.
+Print Assumptions utf8_validate_iff_flag_and_unchanged.
+
+(* single byte code pages (the 36 other names of the table; k = the validator body the name selects): accepted text and
+   filter output consist of bytes the table accepts; none of them is a C0 control other than tab LF CR, DEL, or - ISO-8859
+   family - a C1 control; US-ASCII: nothing above 0x7E *)
+Theorem validate_implies_wellformed_single_byte :
+  forall xhtml comments numeric tag_kind entity_ok bool_ok val_ok name k tus x,
+  D.lookup name = Some (D.V_sb k) -> bytes_ok x ->
+  validate_e xhtml comments numeric tag_kind entity_ok bool_ok val_ok name tus x = true ->
+  forallb (D.byte_ok k) x = true /\
+  Forall (fun b => (32 <= b \/ b = 9 \/ b = 10 \/ b = 13) /\ b <> 127 /\ (iso_kind k = true -> ~ (128 <= b <= 159)) /\
+                   (k = D.SB_ascii -> b < 127)) x.
+Proof. exact validate_implies_wellformed_single_byte_l. Qed.
+Print Assumptions validate_implies_wellformed_single_byte.
+
+Theorem single_byte_filter_validates :
+  forall xhtml comments numeric tag_kind entity_ok bool_ok val_ok name k repl tus tusk fus m x,
+  kind_compat xhtml tag_kind -> (m = EscapeInvalid -> esc_entities_ok entity_ok) ->
+  D.lookup name = Some (D.V_sb k) -> (repl = 0 \/ D.byte_ok k repl = true) ->
+  let out := filter_e xhtml comments numeric tag_kind entity_ok bool_ok val_ok name repl tus tusk fus m x in
+  fst (validate_and_filter_e xhtml comments numeric tag_kind entity_ok bool_ok val_ok name repl tus tusk fus m x)
+    = validate_e xhtml comments numeric tag_kind entity_ok bool_ok val_ok name tus x /\
+  validate_e xhtml comments numeric tag_kind entity_ok bool_ok val_ok name tus out = true /\
+  forallb (D.byte_ok k) out = true.
+Proof. exact single_byte_filter_validates_l. Qed.
+Print Assumptions single_byte_filter_validates.
+
+(* a name without a built-in validator (UTF-16, Shift_JIS, ...): what validate accepts converts (method stop) to well-formed
+   UTF-8 without forbidden controls; stability under the round-trip premise on the conversions alone *)
+Theorem converted_validate_implies_wellformed_utf8 :
+  forall xhtml comments numeric tag_kind entity_ok bool_ok val_ok name tus x,
+  name <> [] -> D.lookup name = None ->
+  validate_e xhtml comments numeric tag_kind entity_ok bool_ok val_ok name tus x = true ->
+  exists u, tus x = Some u /\ exists cps, Forall S.scalar cps /\ Forall S.html_safe cps /\ u = flat_map S.rfc_encode cps.
+Proof. exact converted_validate_implies_wellformed_utf8_l. Qed.
+Print Assumptions converted_validate_implies_wellformed_utf8.
+
+Theorem converted_named_filter_validates :
+  forall xhtml comments numeric tag_kind entity_ok bool_ok val_ok name repl tus tusk fus m x,
+  kind_compat xhtml tag_kind -> (m = EscapeInvalid -> esc_entities_ok entity_ok) ->
+  D.lookup name = None -> conv_roundtrip (D.validate true) tus fus ->
+  fst (validate_and_filter_e xhtml comments numeric tag_kind entity_ok bool_ok val_ok name repl tus tusk fus m x)
+    = validate_e xhtml comments numeric tag_kind entity_ok bool_ok val_ok name tus x /\
+  validate_e xhtml comments numeric tag_kind entity_ok bool_ok val_ok name tus
+    (filter_e xhtml comments numeric tag_kind entity_ok bool_ok val_ok name repl tus tusk fus m x) = true.
+Proof. exact converted_named_filter_validates_l. Qed.
+Print Assumptions converted_named_filter_validates.
+
+(* for every rule set the public API can build, with encoding UTF-8: all of the above without side conditions *)
+Theorem concrete_utf8_filter :
+  forall r vfun name repl tus tusk fus m x,
+  D.norm_name name = D.utf8_name -> P3.repl_ok repl ->
+  let out := snd (c_validate_and_filter_e r vfun name repl tus tusk fus m x) in
+  fst (c_validate_and_filter_e r vfun name repl tus tusk fus m x) = c_validate_e r vfun name tus x /\
+  (c_validate_e r vfun name tus x = true -> out = x) /\
+  c_validate_e r vfun name tus out = true /\
+  exists cps, Forall S.scalar cps /\ Forall S.html_safe cps /\ out = flat_map S.rfc_encode cps.
+Proof. exact concrete_utf8_filter_l. Qed.
+Print Assumptions concrete_utf8_filter.
+
+(* what the extracted driver executes: the same entry points with the table look-up of the encoding name done once *)
+Theorem lookup_once :
+  forall xhtml comments numeric tag_kind entity_ok bool_ok val_ok name repl tus tusk fus m x,
+  validate_e xhtml comments numeric tag_kind entity_ok bool_ok val_ok name tus x =
+    validate_sel xhtml comments numeric tag_kind entity_ok bool_ok val_ok (has_encoding name) (D.lookup name) tus x /\
+  validate_and_filter_e xhtml comments numeric tag_kind entity_ok bool_ok val_ok name repl tus tusk fus m x =
+    validate_and_filter_sel xhtml comments numeric tag_kind entity_ok bool_ok val_ok (has_encoding name) (D.lookup name)
+                            repl tus tusk fus m x.
+Proof. exact lookup_once_l. Qed.
+Print Assumptions lookup_once.
+
+(* tie of the decoder's leaf functions to private/utf_iterator.h (coq/gen/Gen_C04utf.v, regenerated on every run) *)
+Theorem src_utf8_leafs :
+  (forall v, g_c04_utf_valid (Z.of_N v) = D.cp_valid v) /\
+  (forall b, b < 256 -> g_c04_is_trail (wraps 8 (Z.of_N b)) = D.is_trail b) /\
+  (forall b, b < 256 -> g_c04_trail_length (Z.of_N b) = D.trail_length b) /\
+  (forall v, g_c04_width (Z.of_N v) = D.width v).
+Proof. exact (conj LinkE.link_utf_valid (conj LinkE.link_is_trail (conj LinkE.link_trail_length LinkE.link_width))). Qed.
+Print Assumptions src_utf8_leafs.
+
+(* ... and of the decoder itself: utf8::next<char const *> regenerated from the source - every expression of its body translated
+   (g_c04_next_e0 .. e9) and its statement skeleton read from the AST - is the decoder of the model, on every byte string, in
+   both modes.  src_next (LinkN.v) is the skeleton transcribed by hand over the generated expressions; the first conjunct pins
+   the skeleton it was transcribed from *)
+Theorem src_utf8_next :
+  g_c04_next_skeleton = next_skeleton_as_transcribed /\
+  forall html l, bytes_ok l -> src_next html l = D.cppcms_next html l.
+Proof. exact (conj link_next_skeleton link_next). Qed.
+Print Assumptions src_utf8_next.
+
+(* consequence, stated on the regenerated decoder itself: utf8::next as it stands in the source returns a code point exactly on one
+   UTF8-char of the RFC 3629 section 4 ABNF (shortest form, no surrogate, at most U+10FFFF) followed by an arbitrary rest, with its
+   scalar value - in HTML mode only when the value is no forbidden control.  Over-long forms, truncations, stray trail bytes: illegal. *)
+Theorem src_utf8_next_is_rfc3629 : forall html l c r, bytes_ok l ->
+  (src_next html l = (D.Cp c, r) <-> exists e, S.Seq e c /\ l = e ++ r /\ (html = true -> S.html_safe c)).
+Proof. exact src_next_is_rfc3629. Qed.
+Print Assumptions src_utf8_next_is_rfc3629.
+
+(* the single byte validators (loop bodies of private/encoding_validators.h as instantiated by src/encoding.cpp) and the
+   validators_set table (the assignments of its constructor), regenerated from the source, are the model's byte_ok and enc_table *)
+Theorem src_single_byte_validators : forall k g b, gen_sb k = Some g -> b < 256 -> g (Z.of_N b) = D.byte_ok k b.
+Proof. exact link_sb_validators. Qed.
+Print Assumptions src_single_byte_validators.
+
+Theorem src_validators_table :
+  (forall n f, In (n, f) g_c04_enc_table -> exists v, validator_of_name f = Some v /\ In (map Z.to_N n, v) D.enc_table) /\
+  (forall e, In e D.enc_table -> exists n f, In (n, f) g_c04_enc_table /\ validator_of_name f = Some (snd e) /\ map Z.to_N n = fst e) /\
+  length g_c04_enc_table = length D.enc_table.
+Proof. exact link_enc_table. Qed.
+Print Assumptions src_validators_table.
+
+(* the per character step of the encoding name comparator (encodings_comparator::next), regenerated, is the model's name_step *)
+Theorem src_encoding_name_step : forall b, b < 256 ->
+  g_c04_enc_name_step (Z.of_N b) = match D.name_step b with Some x => Z.of_N x | None => (-1)%Z end.
+Proof. exact link_name_step. Qed.
+Print Assumptions src_encoding_name_step.
+
+(* the statement skeleton (control structure, calls, arguments, constants) of the loops and dispatch functions around the decoder -
+   utf8_valid, utf8::validate, validate_or_filter_utf8, validate_or_filter_single_byte_charset, encoding::valid,
+   encoding::validate_or_filter, is_ascii_compatible, is_utf8, validators_set::get, and the encoding prologue / epilogue of
+   xss::validate and xss::validate_and_filter_if_invalid - read from the AST of the checked tree, is the one the hand model was
+   written from (a fingerprint, see LinkC.v; behaviour: correspondence) *)
+Theorem src_encoding_control : g_c04_control = encoding_control_as_modelled.
+Proof. exact link_encoding_control. Qed.
+Print Assumptions src_encoding_control.
+
+(* non-vacuity: rule set ex_rules with encoding "UTF-8"; the boundary code points in shortest form are accepted, every
+   over-long form, surrogate, truncated sequence, stray trail byte and forbidden control is refused and removed *)
+Definition ex_utf8 : list N := [85;84;70;45;56].
+Definition ex_none (_ : list N) : option (list N) := None.
+Definition ex_v (x : list N) : bool := c_validate_e ex_rules ex_vfun ex_utf8 ex_none x.
+Definition ex_f (x : list N) : list N :=
+  snd (c_validate_and_filter_e ex_rules ex_vfun ex_utf8 0 ex_none (fun x => x) ex_none RemoveInvalid x).
+Example utf8_nonvacuous :
+  D.lookup ex_utf8 = Some D.V_utf8 /\
+  ex_v ([60;98;114;47;62] ++ [223;191] ++ [224;160;128] ++ [239;191;191] ++ [240;144;128;128] ++ [244;143;191;191] ++ [194;160]) = true /\
+  ex_v [224;159;191] = false /\ ex_v [223;191] = true /\          (* U+07FF over-long / shortest *)
+  ex_v [192;128] = false /\ ex_v [193;191] = false /\ ex_v [224;128;128] = false /\ ex_v [240;143;191;191] = false /\
+  ex_v [237;160;128] = false /\ ex_v [237;159;191] = true /\      (* U+D800 / U+D7FF *)
+  ex_v [244;144;128;128] = false /\                               (* U+110000 *)
+  ex_v [195] = false /\ ex_v [226;130] = false /\ ex_v [240;159;152] = false /\ ex_v [128] = false /\ ex_v [195;192] = false /\
+  ex_v [194;128] = false /\ ex_v [194;159] = false /\ ex_v [127] = false /\ ex_v [1] = false /\ ex_v [9;10;13] = true /\
+  ex_f ([116] ++ [224;159;191] ++ [60;98;114;47;62] ++ [195]) = [116;60;98;114;47;62] /\
+  ex_f ([60;97;32;104;114;101;102;61;34;120] ++ [226;130] ++ [34;62;116;60;47;97;62]) = [60;97;32;104;114;101;102;61;34;120;34;62;116;60;47;97;62] /\
+  S.WF [223;191;224;160;128] [2047;2048].
+Proof.
+  repeat split; try (vm_compute; reflexivity).
+  change [223;191;224;160;128] with ([223;191] ++ [224;160;128] ++ []).
+  apply (S.WF_cons [223;191] 2047); [exact (S.Seq2 223 191 ltac:(lia) ltac:(unfold S.tail; lia))|].
+  apply (S.WF_cons [224;160;128] 2048); [exact (S.Seq3_E0 160 128 ltac:(lia) ltac:(unfold S.tail; lia))|constructor].
+Qed.
+
+(* ---- 10. the property for a rule set built through the public API with encoding UTF-8, in one statement: for every input,
+        every replacement character that is absent or HTML-safe ASCII, both methods -
+        (a) the text returned by the filter passes validation under the same rules;
+        (b) it is a concatenation of white-listed tokens and harmless text (nothing that opens markup survives outside an
+            allowed construct: seg_ok = whitelisted \/ val_form);
+        (c) it is well-formed UTF-8: concatenated RFC 3629 shortest-form encodings of scalar values, none a forbidden control;
+        (d) input that validates is returned unchanged, and such input is itself (b') a concatenation of white-listed tokens and
+            (c') well-formed UTF-8.  No premise about validators, encoding functions or the rule set is left. ---- *)
+Theorem c04_utf8_rule_sets :
+  forall r vfun name repl tus tusk fus m x,
+  D.norm_name name = D.utf8_name -> P3.repl_ok repl ->
+  let validate_ := c_validate_e r vfun name tus in
+  let out := snd (c_validate_and_filter_e r vfun name repl tus tusk fus m x) in
+  validate_ out = true /\
+  (exists segs, out = concat segs /\
+     Forall (seg_ok (c_xhtml r) (c_comments r) (c_numeric r) (c_tag_kind r) (c_entity_ok r) (c_bool_ok r) (c_val_ok r vfun)) segs) /\
+  (exists cps, Forall S.scalar cps /\ Forall S.html_safe cps /\ out = flat_map S.rfc_encode cps) /\
+  (validate_ x = true ->
+     out = x /\
+     (exists segs, x = concat segs /\
+        Forall (whitelisted (c_xhtml r) (c_comments r) (c_numeric r) (c_tag_kind r) (c_entity_ok r) (c_bool_ok r) (c_val_ok r vfun)) segs) /\
+     (exists cps, Forall S.scalar cps /\ Forall S.html_safe cps /\ x = flat_map S.rfc_encode cps)).
+Proof. exact c04_utf8_rule_sets_l. Qed.
+Print Assumptions c04_utf8_rule_sets.
+
+(* the same for a single byte code page (one of the 36 other names of the validators_set table; k = the validator body it
+   selects): output validates, is a concatenation of white-listed tokens and harmless text, and consists of bytes the table
+   accepts; valid input is returned unchanged, is a concatenation of white-listed tokens and consists of accepted bytes
+   (validate_implies_wellformed_single_byte: none of them a control character).  Replacement character: none or a byte the table accepts. *)
+Theorem c04_single_byte_rule_sets :
+  forall r vfun name k repl tus tusk fus m x,
+  D.lookup name = Some (D.V_sb k) -> (repl = 0 \/ D.byte_ok k repl = true) ->
+  let validate_ := c_validate_e r vfun name tus in
+  let out := snd (c_validate_and_filter_e r vfun name repl tus tusk fus m x) in
+  validate_ out = true /\
+  (exists segs, out = concat segs /\
+     Forall (seg_ok (c_xhtml r) (c_comments r) (c_numeric r) (c_tag_kind r) (c_entity_ok r) (c_bool_ok r) (c_val_ok r vfun)) segs) /\
+  forallb (D.byte_ok k) out = true /\
+  (validate_ x = true ->
+     out = x /\
+     (exists segs, x = concat segs /\
+        Forall (whitelisted (c_xhtml r) (c_comments r) (c_numeric r) (c_tag_kind r) (c_entity_ok r) (c_bool_ok r) (c_val_ok r vfun)) segs) /\
+     forallb (D.byte_ok k) x = true).
+Proof. exact c04_single_byte_rule_sets_l. Qed.
+Print Assumptions c04_single_byte_rule_sets.
+
+(* the same for an encoding without a built-in validator (UTF-16, UTF-32, Shift_JIS, ...): the text is converted to UTF-8, filtered
+   there and converted back; tus / tusk / fus = conv::to_utf (stop / skip) and conv::from_utf (stop) as arbitrary functions, constrained
+   only by the round-trip premise.  The UTF-8 text that is converted back (concat segs) is a concatenation of white-listed tokens and
+   harmless text; what validation accepts converts to well-formed UTF-8 without forbidden controls. *)
+Theorem c04_converted_rule_sets :
+  forall r vfun name repl tus tusk fus m x,
+  name <> [] -> D.lookup name = None -> conv_roundtrip (D.validate true) tus fus ->
+  let validate_ := c_validate_e r vfun name tus in
+  let out := snd (c_validate_and_filter_e r vfun name repl tus tusk fus m x) in
+  validate_ out = true /\
+  (exists segs,
+     Forall (seg_ok (c_xhtml r) (c_comments r) (c_numeric r) (c_tag_kind r) (c_entity_ok r) (c_bool_ok r) (c_val_ok r vfun)) segs /\
+     ((out = x /\ tus x = Some (concat segs)) \/ fus (concat segs) = Some out \/ out = [])) /\
+  (validate_ x = true ->
+     out = x /\
+     exists u, tus x = Some u /\ exists cps, Forall S.scalar cps /\ Forall S.html_safe cps /\ u = flat_map S.rfc_encode cps).
+Proof. exact c04_converted_rule_sets_l. Qed.
+Print Assumptions c04_converted_rule_sets.
